@@ -1386,3 +1386,7 @@ def stream_rewound(ctx):
     ctx.saw('%d seek calls in the parsers, %d of them to the end of a stream' % (total, n))
     ctx.floor(n, 1, 'seeks to the end of a stream')
     ctx.floor(total, 8, 'seek calls')
+
+
+from . import c05 as _c05
+PROP.obligation('C06.script-built')(_c05.script_built)
